@@ -129,7 +129,7 @@ def Syn.Lexable : Syn → Prop
   | .more a _ rest => a.Lexable ∧ rest.Lexable
 end
 
-theorem ValOk.quoteOf {v : String} (h : ValOk v) : quoteOf v = "\"" := quoteOf_dq (fun c hc => (h c hc).1)
+theorem ValOk.quoteOf {v : String} (h : ValOk v) : quoteOf v = "\"" := quoteOf_dq (fun c hc => ⟨(h c hc).1, (h c hc).2.1⟩)
 
 mutual
 /-- a lexable tree is printed with double quotes (a value holding a double quote would be written in single quotes) -/
